@@ -390,6 +390,23 @@ func c11all(thorough bool, f func(v c11val, class string) bool) {
 			return
 		}
 	}
+	// one container object reachable twice inside one value (sharing without a cycle)
+	for _, script := range []string{
+		`(let [p (hash x: 1 y: "a")] (hash first: p second: p all: [p p]))`, `(let [e []] [e e [e]])`, `(let [e (hash)] [e e])`, `(let [e []] (hash a: e b: e))`,
+		`(begin (defmap ranch) (let [r (ranch k: 2)] [r r (hash in: r)]))`, `(let [a [1 2]] (let [b [a a]] [b a b]))`,
+	} {
+		script := script
+		v := c11val{"X:" + script, func(env *zygo.Zlisp) zygo.Sexp {
+			r := zy.Eval(env, script)
+			if !r.OK() {
+				return zygo.SexpNull
+			}
+			return r.Sexp
+		}}
+		if !f(v, "shared-container") {
+			return
+		}
+	}
 	// the same through the script-level route, where the keys really are dot-symbols
 	for _, script := range []string{
 		`(let [h (hash k: 2)] (hset h (quote .k) 1) h)`, `(let [h (hash)] (hset h (quote .k) 1) (hset h k: 2) h)`,
